@@ -105,8 +105,16 @@ def _guarded_same(tj: ast.FunctionDef, key: str) -> bool:
 
 
 def module_results_classes(ctx: Ctx) -> List[ClassInfo]:
-    return [c for c in ctx.repo.subclasses("ModuleResults") if ctx.repo.method(c, "from_json", inherited=False)
-            and ctx.repo.method(c, "to_json", inherited=False)]
+    found = [c for c in ctx.repo.subclasses("ModuleResults") if ctx.repo.method(c, "from_json", inherited=False)
+             and ctx.repo.method(c, "to_json", inherited=False)]
+    # nested result containers that carry their own schema version
+    for infos in ctx.repo.classes.values():
+        for info in infos:
+            if info in found or not ctx.repo.method(info, "from_json", inherited=False):
+                continue
+            if any(isinstance(n, ast.Assign) and txt(n.targets[0]) == "schema_version" for n in info.node.body):
+                found.append(info)
+    return sorted(found, key=lambda c: c.qual)
 
 
 SCHEMA_TABLED = {
@@ -167,6 +175,8 @@ def r11_2(ctx: Ctx) -> None:
                     found = found or any(isinstance(s, ast.Raise) or (isinstance(s, ast.Return) and txt(s.value) == "None")
                                          for s in node.body)
         form = "in from_json"
+        if not ctx.repo.is_subclass(info, "ModuleResults"):
+            continue   # nested container: the record guard belongs to the enclosing module results
         if not found:
             # equivalent refusal when the results are applied to a record
             add = ctx.repo.method(info, "add_to_record", inherited=False)
